@@ -19,6 +19,10 @@ def check(run):
             [dict(num=900, ops=24, maxb=8, driver_args=["-replica"], batch=150), dict(num=400, ops=34, maxb=11, driver_args=["-replica"], batch=150)]
     groups = xc.gen(run, plans, cfg="Gen_XState_miner.cfg")
     xc.replay_validate(run, groups)
+    # engine level: the real Miner.mining round and the real ProcBlock pipeline on peers' chains
+    ebehs, est = ([], {})
+    if not run.violations:
+        ebehs, est = xc.engine_phase(run, 40 if quick else 500)
     behs = [b for _, bs, _ in groups for b in bs]
     st = xc.stats(behs)
     ops = [o for b in behs for o in b]
@@ -30,4 +34,5 @@ def check(run):
                         "order the real pool yielded", "the timer transaction is empty in these scenarios (no timer tasks); the block size "
                         "limit is never reached", "the block's consensus fields are those of the single-miner fixture"]
     run.finish(require={"mined_blocks": (len(mined), 40), "mined_with_3_or_more_txs": (sum(1 for o in mined if len(o.get("txs") or []) >= 3), 10),
-                        "replicas": (run.cov.get("real_replicas", 0), 40)})
+                        "replicas": (run.cov.get("real_replicas", 0), 40),
+                        "engine_pushes": (run.cov.get("real_pushes", 0), 100), "engine_mining_rounds": (est.get("mine:ok", 0), 5)})
